@@ -600,6 +600,18 @@ def starts_with(b, prefix):
     return len(b) >= len(prefix) and b[:len(prefix)] == prefix
 
 
+@primitive
+def is_ascii(s):
+    """every character of the text is below 128"""
+    return all(ord(c) < 128 for c in s)
+
+
+@primitive
+def ascii_bytes(s):
+    """the bytes an ASCII text encodes to"""
+    return s.encode("ascii")
+
+
 def twos8(n):
     """two's complement byte of a small signed int"""
     return n if n >= 0 else 256 + n
